@@ -9,7 +9,8 @@ EXTENDS RuleSemantics, Json
 Sc(t, id, k) == [text |-> t, id |-> id, k |-> k]
 ScalarCat == << Sc("1", "l:1", "integer"), Sc("\"1\"", "s:1", "string"), Sc("1.5", "l:1.5", "float"), Sc("\"a\"", "s:a", "string"),
                 Sc("\"\\u0061\"", "s:a", "string"), Sc("\"b\"", "s:b", "string"), Sc("true", "l:true", "boolean"),
-                Sc("null", "l:null", "null"), Sc("2", "l:2", "integer"), Sc("\"a.b\"", "s:a.b", "string") >>
+                Sc("null", "l:null", "null"), Sc("2", "l:2", "integer"), Sc("\"a.b\"", "s:a.b", "string"),
+                Sc("\"a\\fb\"", "s:a-ff-b", "string"), Sc("\"\\u0001\"", "s:soh", "string") >>
 N == Len(ScalarCat)
 
 \* format samples with obvious validity
